@@ -1018,7 +1018,9 @@ func buildStubs() map[string]stubFn {
 				}
 			}
 			var fits *Term
-			if signed {
+			if signed && s.num.signed && bitSize == 64 {
+				fits = tc.True
+			} else if signed {
 				lo := int64(-1) << uint(bitSize-1)
 				hi := int64(1)<<uint(bitSize-1) - 1
 				if s.num.signed {
@@ -1366,6 +1368,26 @@ func buildStubs() map[string]stubFn {
 	m["time.UnixMilli"] = func(ex *Exec, c *frame, fn *ssa.Function, a []Value) Value {
 		return mkTime(ex, ex.tc.Bin(OMul, a[0].(*Term), ex.i64(1000000)))
 	}
+	m["(time.Duration).Seconds"] = func(ex *Exec, c *frame, fn *ssa.Function, a []Value) Value {
+		return ex.tc.DurSeconds(a[0].(*Term))
+	}
+	// timers never fire in sequential executions (the virtual clock only advances when the harness says so);
+	// a select on timer.C therefore falls through to its other cases
+	mkTimer := func(ex *Exec) Value {
+		tt := ex.eng.namedType("time", "Timer")
+		p := new(Value)
+		z := ex.zero(tt).(StructV)
+		z[0] = &ChanV{cap: 1, elemT: ex.eng.namedType("time", "Time")}
+		*p = z
+		return p
+	}
+	m["time.NewTimer"] = func(ex *Exec, c *frame, fn *ssa.Function, a []Value) Value { return mkTimer(ex) }
+	m["time.AfterFunc"] = func(ex *Exec, c *frame, fn *ssa.Function, a []Value) Value { return mkTimer(ex) }
+	m["time.After"] = func(ex *Exec, c *frame, fn *ssa.Function, a []Value) Value {
+		return &ChanV{cap: 1, elemT: ex.eng.namedType("time", "Time")}
+	}
+	m["(*time.Timer).Stop"] = func(ex *Exec, c *frame, fn *ssa.Function, a []Value) Value { return ex.tc.False }
+	m["(*time.Timer).Reset"] = func(ex *Exec, c *frame, fn *ssa.Function, a []Value) Value { return ex.tc.False }
 	m["time.Sleep"] = func(ex *Exec, c *frame, fn *ssa.Function, a []Value) Value {
 		ex.advanceClock(a[0].(*Term))
 		return nil
@@ -1377,8 +1399,16 @@ func buildStubs() map[string]stubFn {
 		n := int64(0)
 		if !s.isNil() {
 			n = ex.sliceLen(s)
+			// the random source is modelled as a sequence of pairwise distinct concrete blocks (only distinctness of
+			// lock tokens matters to the code under test; symbolic bytes would make hex encoding fork per nibble)
+			ctr, _ := ex.extra["randCtr"].(int)
+			ctr++
+			ex.extra["randCtr"] = ctr
 			for i := int64(0); i < n; i++ {
-				*s.elem(i) = ex.newEnvVar("rand", 8)
+				*s.elem(i) = ex.u8(byte(0xA0 + ctr*17 + int(i)*3))
+			}
+			if n > 0 {
+				*s.elem(0) = ex.u8(byte(ctr))
 			}
 		}
 		return Tuple{ex.i64(n), ex.nilError()}
@@ -1751,10 +1781,10 @@ func (ex *Exec) addAssume(c *Term) {
 
 func (ex *Exec) now() *Term {
 	if ex.clock == nil {
-		// arbitrary start instant, whole ms unless the harness says otherwise; bounded so that time arithmetic cannot overflow
-		ms := ex.newInput("env", "clock0_ms", 64)
-		ex.addAssume(ex.tc.And(ex.tc.Cmp(OSle, ex.i64(1), ms), ex.tc.Cmp(OSle, ms, ex.i64(1<<41))))
-		ex.clock = ex.tc.Bin(OMul, ms, ex.i64(1000000))
+		// The virtual clock starts at a fixed instant (whole ms) and only advances when the harness lets time pass
+		// (vpSleepMs / time.Sleep) by solver-chosen amounts: absolute time is irrelevant to the code under test,
+		// and a constant origin keeps ns<->ms<->s conversions of absolute instants out of the solver.
+		ex.clock = ex.tc.Bin(OMul, ex.i64(1700000000000), ex.i64(1000000))
 	}
 	return ex.clock
 }
